@@ -10,9 +10,9 @@ observation, satisfies the clause for every state, caller, operation and oracle 
 clause that fires on the code is a disagreement with the statement *and* with the model, never
 an artefact of the clause.
 
-Proved here: C01 `denied_noeffect`, `effect_only_if_granted`, `list_exact`; C02 `reads`, `frame`, `delete_version` (and
+Proved here: C01 `denied_noeffect`, `effect_only_if_granted`, `list_exact`; C02 `reads`, `frame`, `delete_version`, `active` (and
 `reads_total`, `failed_noop` in Properties/C02.lean); C04 `mem_eq_disk`, `savefail_noop`; C06 `recorded`, `before_effect`, `fail_closed`, `unchanged_silent`;
-C09 `cond` (under the store invariant).  Not yet proved of the model: C01 `changes_only_granted`; C02 `inv`, `put`, `bytes_stable`, `active`; C04 `gen_iff_saved`; C18 `acknowledged_bytes_kept`
+C09 `cond` (under the store invariant).  Not yet proved of the model: C01 `changes_only_granted`; C02 `inv`, `put`, `bytes_stable`; C04 `gen_iff_saved`; C18 `acknowledged_bytes_kept`
 (their content is stated as theorems about the model in the property files, in other words).
 -/
 namespace Setec.MonSound
@@ -297,5 +297,77 @@ theorem c02_delete_version_sound (kv : KV) (c : Caller) (op : Op) (aok sok : Boo
             | ok u => simp [deleteSecret_gone kv n kv' sok hd]
     · simp [hg]
   | _ => simp [c02_delete_version, obsOf]
+
+theorem active_kept (kv : KV) (op : Op) (sok : Bool) (h : Inv kv)
+    (hop : ∀ n v, op ≠ .activate n v) (hdel : ∀ n, op ≠ .delete n) (m : String) (s : Secret)
+    (hm : kv.secrets[m]? = some s) :
+    ∃ s', (kvPost Cfg.std kv op sok).secrets[m]? = some s' ∧ s'.active = s.active := by
+  cases op with
+  | put n val =>
+    simp only [kvPost, std_guardPresent]
+    by_cases hmn : n = m
+    · subst hmn; exact put_active_unchanged kv n val sok s h hm
+    · exact ⟨s, by rw [put_frame true kv n m val sok h hmn]; exact hm, rfl⟩
+  | deleteVersion n v =>
+    simp only [kvPost]
+    by_cases hmn : n = m
+    · subst hmn
+      cases hd : deleteVersion kv n v sok with
+      | mk kv' r =>
+        cases r with
+        | error er => have := deleteVersion_error_noop kv n v sok er kv' hd; subst this; exact ⟨s, hm, rfl⟩
+        | ok u =>
+          obtain ⟨s1, s', h1, h2, _, _, hact, _⟩ := deleteVersion_ok kv n v sok kv' hd
+          rw [hm] at h1; cases h1
+          exact ⟨s', h2, hact⟩
+    · exact ⟨s, by rw [deleteVersion_frame kv n m v sok hmn]; exact hm, rfl⟩
+  | activate n v => exact absurd rfl (hop n v)
+  | delete n => exact absurd rfl (hdel n)
+  | _ => exact ⟨s, hm, rfl⟩
+
+theorem active_all (kv : KV) (c : Caller) (op : Op) (aok sok : Bool) (h : Inv kv)
+    (hop : ∀ n v, op ≠ .activate n v) (hdel : ∀ n, op ≠ .delete n) :
+    activeKept kv (step Cfg.std kv c op aok sok).1 = true := by
+  simp only [activeKept, List.all_eq_true]
+  rintro ⟨m, s⟩ hp
+  have hm := (ExtTreeMap.mem_toList_iff_getElem?_eq_some (t := kv.secrets) (k := m) (v := s)).mp hp
+  rcases step_state Cfg.std kv c op aok sok with e | e
+  · simp [e, hm]
+  · obtain ⟨s', h1, h2⟩ := active_kept kv op sok h hop hdel m s hm
+    simp [e, h1, h2]
+
+theorem c02_active_sound (kv : KV) (c : Caller) (op : Op) (aok sok : Bool) (h : Inv kv) :
+    c02_active (obsOf kv c op aok sok) = true := by
+  have hs := fun op a s => step_outcome kv c op a s
+  cases op with
+  | activate n v =>
+    simp (disch := simp) only [c02_active, obsOf, hs, outcome, wellFormed, actionOf, nameOf, exec]
+    by_cases hn : n = ""
+    · simp [hn]
+    · by_cases hg : grantedStd c "activate" n = true
+      · cases aok with
+        | false => simp [hn, hg]
+        | true =>
+          simp only [hg]
+          by_cases hp : hasPrefix Cfg.std n = true
+          · simp [hn, hp]
+          · simp only [hp]
+            cases hd : setActive kv n v sok with
+            | mk kv' r =>
+              cases r with
+              | error er => cases er <;> simp [hn, kvErr]
+              | ok u =>
+                obtain ⟨s, s', h1, h2, hmem, hact, hver, _⟩ := setActive_ok kv n v sok kv' hd
+                have hc : s'.versions.contains v = true := by rw [hver]; simpa using hmem
+                simp [hn, h2, hact, hc]
+      · simp [hn, hg]
+  | delete n => simp [c02_active, obsOf]
+  | list => exact active_all kv c _ aok sok h (by intro n v; simp) (by intro n; simp)
+  | info n => exact active_all kv c _ aok sok h (by intro n v; simp) (by intro n; simp)
+  | get n => exact active_all kv c _ aok sok h (by intro n v; simp) (by intro n; simp)
+  | getVersion n v => exact active_all kv c _ aok sok h (by intro n v; simp) (by intro n; simp)
+  | getCond n v => exact active_all kv c _ aok sok h (by intro n v; simp) (by intro n; simp)
+  | put n v => exact active_all kv c _ aok sok h (by intro n v; simp) (by intro n; simp)
+  | deleteVersion n v => exact active_all kv c _ aok sok h (by intro n v; simp) (by intro n; simp)
 
 end Setec.MonSound
